@@ -213,7 +213,7 @@ def stage(unit, udir, work):
             frag = apply_rewrites(frag, ent.get('rewrites'), ent['path'] + '::' + ent['name'], report['rules'])
             dst = os.path.join(work, 'frag', ent['name'] + '.inc')
             os.makedirs(os.path.dirname(dst), exist_ok=True)
-            open(dst, 'w').write('/* extracted by vx from %s (anchor %r) */\n%s\n' % (ent['path'], ent['anchor'], frag))
+            open(dst, 'w').write('/* extracted by vx from %s (anchor %s) */\n%s\n' % (ent['path'], repr(ent['anchor']).replace('*/', '* /').replace('/*', '/ *'), frag))
             report['mode_c_fragment'].append('%s :: %s' % (ent['path'], ent['name']))
         else:
             raise Drift('unknown stage kind ' + kind)
@@ -343,7 +343,9 @@ def run_group(unit, udir, work, builder, g, tier):
         # cbmc 6 enables bounds/pointer/div-by-zero/signed-overflow/undefined-shift/pointer-primitive checks by default
         cmd += g.get('checks', [])
         if unwind:
-            cmd += ['--unwind', str(unwind), '--unwinding-assertions']
+            cmd += ['--unwind', str(unwind)]
+            # cbmc 6 enables unwinding assertions by default; without them paths that need more iterations are cut (stated bound)
+            cmd += ['--unwinding-assertions'] if g.get('unwinding_assertions', True) else ['--no-unwinding-assertions']
         for k, v in (g.get('unwindset') or {}).items():
             cmd += ['--unwindset', '%s:%s' % (k, v)]
         be = g.get('backend', 'sat-minisat')
